@@ -8,7 +8,7 @@ KEEP=${1:?keepdir}; shift
 PROPS=${*:-C01 C02 C03 C04 C05 C06 C07 C08 C09 C10 C11 C12 C13 C14 C15 C16 C17 C18 C19 C20}
 mkdir -p "$KEEP"
 for p in $PROPS; do
-  for tier in quick thorough; do
+  for tier in ${TIERS:-quick thorough}; do
     start=$(date +%s)
     VERIF_KEEP="$KEEP/$p.$tier" ./vcheck $p $tier > "$KEEP/$p.$tier.log" 2>&1
     rc=$?
